@@ -1,7 +1,17 @@
 """Level texts for MANIFEST.json."""
-HOOK_COMMITS = ["645c65a"]
+HOOK_COMMITS = ["645c65a", "e34ba59"]
 NOT_APPLICABLE = {}
 LEVELS = {
+    "C20": {
+        "text": "Proof: C20_all_once — for every number of eon keys pending at a polling tick, every order in which the database returns "
+                "them, both publication modes: if they belong to keyper sets the keyper is a member of and the publication mechanism "
+                "accepts, each is handed over exactly once with the right activation block, keyper-set index and eon number, and the tick "
+                "reports no error; C20_any_order, C20_only_pending. The model is tied to queryAndHandleNewEonPubKeys by running the real "
+                "handler (hook) over the PostgreSQL fake on multi-tick scenarios; the implementation's hand-overs are also checked directly.",
+        "design_ref": "DESIGN.md §4 C20",
+        "note": "Trusted: Lean kernel; correspondence harness incl. pgfake/kdb (my reading of the SQL); the verif-tag hook.",
+        "technique": "Lean 4 theorem by induction over the pending list + differential runs of the real handler over an in-process PostgreSQL fake",
+    },
     "C01": {
         "text": "Proof: C01_exact (a key is derived exactly when t distinct valid shares have arrived, never from fewer), C01_correct (every "
                 "derived key is f(0)•H, the epoch secret key matching the eon public key, whichever t shares came first) and "
